@@ -257,7 +257,8 @@ bool tN2kGroupFunctionHandler::Parse(const tN2kMsg &N2kMsg,
                             unsigned long &PGNForGroupFunction) {
   if (N2kMsg.PGN!=126208L) return false;
 
-  unsigned char FunctionCode=N2kMsg.Data[0];
+  int Index=0;
+  unsigned char FunctionCode=N2kMsg.GetByte(Index); // 0xff for empty message
   if ( FunctionCode>N2kgfc_WriteReply ) return false; // Not a group function code we know. Converting it to enum would be undefined.
   GroupFunctionCode=(tN2kGroupFunctionCode)(FunctionCode);
   PGNForGroupFunction=GetPGNForGroupFunction(N2kMsg);
